@@ -15,6 +15,7 @@ import (
 	"runtime/debug"
 	"sort"
 	"sync"
+	"sync/atomic"
 	"time"
 )
 
@@ -72,6 +73,10 @@ func short(v any) string {
 
 var watchdog = 20 * time.Second
 
+// hangs counts calls that did not return; a hung goroutine keeps spinning, so after a few of them no new vectors are
+// started (the hangs recorded so far are reported)
+var hangs int32
+
 // runAct performs one act under recover and a watchdog.
 func runAct(e *Env, st Step, args J) (obs J) {
 	fn, ok := acts[st.Act]
@@ -102,6 +107,7 @@ func runAct(e *Env, st Step, args J) (obs J) {
 	case o := <-done:
 		return o
 	case <-time.After(watchdog):
+		atomic.AddInt32(&hangs, 1)
 		return J{"panic": false, "hang": true}
 	}
 }
@@ -272,6 +278,13 @@ func replayMain(in io.Reader, tracePath, outPath string, seed int64, workers int
 		go func() {
 			defer wg.Done()
 			for j := range jobs {
+				if atomic.LoadInt32(&hangs) >= 3 {
+					results <- struct {
+						r VecResult
+						v *Vector
+					}{VecResult{}, j.v}
+					continue
+				}
 				r := runVector(j.v, seed, traceW != nil)
 				results <- struct {
 					r VecResult
